@@ -435,6 +435,76 @@ theorem sum_map_div (r : List K) (t : K) : (r.map fun x => x / t).sum = r.sum / 
   simp only [div_eq_mul_inv]
   exact List.sum_map_mul_right r (fun x => x) t⁻¹ |>.trans (by simp)
 
+/-! ### accumulation over the shots -/
+
+theorem addVec_eq (a b : List K) : addVec (fieldNum K) a b = List.zipWith (· + ·) a b := rfl
+
+theorem addVec_length (a b : List K) (h : b.length = a.length) : (addVec (fieldNum K) a b).length = a.length := by
+  simp [addVec_eq, h]
+
+theorem addVec_sum (a b : List K) (h : b.length = a.length) : (addVec (fieldNum K) a b).sum = a.sum + b.sum := by
+  rw [addVec_eq]
+  induction a generalizing b with
+  | nil => cases b <;> simp_all
+  | cons x xs ih =>
+    cases b with
+    | nil => simp at h
+    | cons y ys =>
+      simp only [List.zipWith_cons_cons, List.sum_cons, ih ys (by simpa using h)]
+      ring
+
+theorem addVec_nonneg (a b : List K) (ha : ∀ x ∈ a, 0 ≤ x) (hb : ∀ x ∈ b, 0 ≤ x) :
+    ∀ x ∈ addVec (fieldNum K) a b, 0 ≤ x := by
+  rw [addVec_eq]
+  induction a generalizing b with
+  | nil => simp
+  | cons x xs ih =>
+    cases b with
+    | nil => simp
+    | cons y ys =>
+      intro z hz
+      simp only [List.zipWith_cons_cons, List.mem_cons] at hz
+      rcases hz with rfl | hz
+      · exact add_nonneg (ha _ (by simp)) (hb _ (by simp))
+      · exact ih ys (fun w hw => ha w (List.mem_cons_of_mem _ hw)) (fun w hw => hb w (List.mem_cons_of_mem _ hw)) z hz
+
+theorem foldl_addVec (results : List (List K)) (acc : List K) (hlen : ∀ r ∈ results, r.length = acc.length)
+    (hacc : ∀ x ∈ acc, 0 ≤ x) (hnn : ∀ r ∈ results, ∀ x ∈ r, 0 ≤ x) :
+    (results.foldl (addVec (fieldNum K)) acc).length = acc.length ∧
+    (∀ x ∈ results.foldl (addVec (fieldNum K)) acc, 0 ≤ x) ∧
+    (results.foldl (addVec (fieldNum K)) acc).sum = acc.sum + (results.map List.sum).sum := by
+  induction results generalizing acc with
+  | nil => exact ⟨rfl, hacc, by simp⟩
+  | cons r rs ih =>
+    have hr : r.length = acc.length := hlen r (by simp)
+    have hl := addVec_length acc r hr
+    obtain ⟨h1, h2, h3⟩ := ih (addVec (fieldNum K) acc r)
+      (fun r' hr' => by rw [hl]; exact hlen r' (List.mem_cons_of_mem _ hr'))
+      (addVec_nonneg acc r hacc (hnn r (by simp)))
+      (fun r' hr' => hnn r' (List.mem_cons_of_mem _ hr'))
+    refine ⟨by rw [List.foldl_cons, h1, hl], by simpa [List.foldl_cons] using h2, ?_⟩
+    rw [List.foldl_cons, h3, addVec_sum acc r hr]
+    simp [add_assoc]
+
+/-- the mean over `shotsVal > 0` shots of non-negative vectors of length `len` -/
+theorem meanOfShots_spec (len : Nat) (shotsVal : K) (hs : 0 < shotsVal) (results : List (List K))
+    (hlen : ∀ r ∈ results, r.length = len) (hnn : ∀ r ∈ results, ∀ x ∈ r, 0 ≤ x) :
+    (meanOfShots (fieldNum K) len shotsVal results).length = len ∧
+    (∀ x ∈ meanOfShots (fieldNum K) len shotsVal results, 0 ≤ x) ∧
+    (meanOfShots (fieldNum K) len shotsVal results).sum = (results.map List.sum).sum / shotsVal := by
+  have hz : (fieldNum K).zero = 0 := rfl
+  obtain ⟨h1, h2, h3⟩ := foldl_addVec results (List.replicate len (fieldNum K).zero)
+    (fun r hr => by simpa using hlen r hr) (fun x hx => by simp [hz] at hx; simp [hx.2])
+    hnn
+  unfold meanOfShots
+  refine ⟨by simpa using h1, ?_, ?_⟩
+  · intro x hx
+    obtain ⟨y, hy, rfl⟩ := List.mem_map.mp hx
+    exact div_nonneg (h2 y hy) hs.le
+  · change (List.map (fun x => x / shotsVal) _).sum = _
+    rw [sum_map_div, h3]
+    simp [hz]
+
 end field
 
 end QG.Lemmas.RunValidate
